@@ -17,7 +17,7 @@ RULE = ("(a) every document of a reference-heavy family and the repository's bas
         "scheduling: under the VSet loader every iterated set of >=2 elements is re-ordered (all permutations up to 4 elements, "
         "adjacent swaps + reversal + rotation above), one deviation at a time (thorough: also pairs), every byte difference "
         "confirmed with real hash seeds before it is reported; (c) all permutations of components.schemas (<=4 names permuted) "
-        "and paths (<=3) of every family document that generates without diagnostics; the family includes unions with repeated members after flattening, component unions with an inline member before a forward reference, one model as body under three media types, siblings re-declaring an inherited property; oracle: byte-identical trees")
+        "and paths (<=3) of every family document that generates without diagnostics; the family includes unions with repeated members after flattening, component unions with an inline member before a forward reference, one model as body under three media types, siblings re-declaring an inherited property; oracle: byte-identical trees; the same enum class under another value order, class names and literal values differing only in case, children promoting several inherited properties, 3.0 nullable wrappers around forward references")
 FLOOR = 0.5
 CASE_LIMIT = 600
 ASSUMPTIONS = ["VSet models hash order as a function of the set's contents; a model-level difference is only a candidate until two real interpreters reproduce it",
